@@ -2,11 +2,12 @@ from _common import COMMON_NOTE
 
 META = {
  'title': 'Frames last 69888/70908 T with a 32-T INT pulse; no T-state is ever lost',
- 'lean_modules': ['ZxVerif.Props.C05', 'ZxVerif.Props.C04X'],
+ 'lean_modules': ['ZxVerif.Props.C05', 'ZxVerif.Props.C04X', 'ZxVerif.Props.C05Sys'],
  'extract': ['Machine', 'Contended'],
  'modelled_code': ['rustzx-core/src/zx/controller.rs (wait_internal clock part, new_frame, int_active, frames_count)',
                    'rustzx-core/src/zx/machine/mod.rs + specs.rs (clocks_frame, interrupt_length)',
-                   'rustzx-core/src/emulator/mod.rs (emulate_frames frame counting, exercised by the system-level runs)'],
+                   'rustzx-core/src/emulator/mod.rs (emulate_frames frame counting, exercised by the system-level runs)',
+                   'rustzx-core/src/zx/controller.rs impl Z80Bus (the composed machine lean/ZxVerif/Model/Spectrum.lean; tied by the lock-step layer of C04)'],
  'assumptions': ['a single bus wait is shorter than a frame (the machine issues at most 13 T at once); hypothesis of time_conserved, checked in the correspondence',
                  'the system-level programs rely on the T-states of INC BC, JP nn, HALT and the IM 2 entry (C03)',
                  '"interrupted exactly once per frame" is proved at clock level (INT window, no second window in a frame) and observed for real programs; the CPU acceptance rules are C02'],
